@@ -35,7 +35,7 @@ CHECKS = {
     ),
     "C11": dict(
         category="exploration",
-        technique="runtime monitoring: structural invariant walkers over tokenizer and parser outputs (token tiling, values vs slices, tree leaves vs tokens, node span hull) and over every span carried by syntax/compiler errors; plus a located-error monitor over recorded language-server sessions (the error the library locates must be published for the document of its module with exactly the range of its span in the client's text)",
+        technique="runtime monitoring: structural invariant walkers over tokenizer and parser outputs (token tiling, values vs slices, tree leaves vs tokens, node span hull) and over every span carried by syntax/compiler errors; plus a located-error monitor over recorded language-server sessions (the error the library locates must be published for the document of its module with exactly the range of its span in the client's text) and a span-table monitor over navigation sessions of the real oal-lsp on workspaces with multi-byte comments and CRLF between tokens (definition/references locations at every position, prepareRename ranges)",
         text="For every text of the workload the token spans must tile the text outside lexical-error spans, token values must be what their slices denote, the tree's leaves must be the non-trivia tokens of the parsed prefix in order, node spans must be the hull of their leaves, and error spans must lie inside their own module's text on char boundaries.",
         note="Trusted: the walker's own hull computation; tokenizer assumed context-free longest-match for the re-lex check.",
         design="5/C11",
@@ -112,7 +112,7 @@ CHECKS = {
     ),
     "C17": dict(
         category="exploration",
-        technique="runtime monitoring: reference-model monitor (generator's span and binding tables) over a full position sweep of definition/references requests against the real oal-lsp process, half of the sessions after unsaved drafts of every module were opened, queried and closed",
+        technique="runtime monitoring: reference-model monitor (generator's span and binding tables) over a full position sweep of definition/references requests against the real oal-lsp process, half of the sessions after unsaved drafts of every module were opened, queried and closed, and half of them swept a second time after an unsaved edit of one module moved its lines",
         text="For generated multi-module workspaces every UTF-16 position of every line is sent as textDocument/definition and textDocument/references to the real server; answers must be exactly the binder location / the set of bound uses, and empty off identifiers.",
         note="Lenient zones where the statement does not decide: right after an identifier, qualifier and dot, binder tokens.",
         design="5/C17",
